@@ -97,7 +97,7 @@ def render(rng, a, top=True):
         return '%s%s%s%s%s' % (q, sp(rng), INV[op], sp(rng), key)
     if k == 'verin':
         _, key, lits, neg = a
-        return '%s %s %s' % (key, 'not  in' if neg and rng.random() < .3 else ('not in' if neg else 'in'), quote(rng, rng.choice([' ', '  ']).join(lits)))
+        return '%s %s %s' % (key, 'not  in' if neg and rng.random() < .3 else ('not in' if neg else 'in'), quote(rng, rng.choice([' ', ' ', '  ', '\t', ' \t ', '\n']).join(lits)))
     if k == 'str':
         _, key, op, val = a
         q = quote(rng, val)
